@@ -178,6 +178,7 @@ static void gen_c13(Plan& p, Rng& r) {
         } else if (k < 52) {
             Op o = mkop("fd_close", r); uint32_t c = r.below(10);
             if (c < 5) o.n["fd_live"] = r.below(8); else if (c < 6) o.n["fd_dir"] = r.below(6); else if (c < 8) o.n["fd_closed"] = r.below(4); else if (c < 9) o.n["fd_never"] = r.below(3); else o.n["fd"] = (int64_t)(r.below(2) ? 0xFFFFFFFFll : 0x80000000ll);
+            if (faults && c < 6 && r.below(3) == 0) { o.fault = "close_fail"; o.fault_nth = 1; o.fault_param = r.below(2) ? EINTR : EIO; }
             p.ops.push_back(o);
         } else if (k < 70) {
             Op o = mkop("badfd_sweep", r); uint32_t c = r.below(10);
